@@ -30,6 +30,20 @@ FORBIDDEN_TOKENS = ["sorry", "admit", "native_decide", "bv_decide", "implemented
 NCPU = os.cpu_count() or 4
 
 
+ORACLE = "oracle"
+
+
+def set_oracle(pid):
+    """use the property's own oracle executable (lean/Mains/<pid>.lean: only the handlers, hence only the regenerated
+    tables, that the property needs) when there is one"""
+    global ORACLE
+    ORACLE = "oracle_" + pid if os.path.exists(os.path.join(LEAN, "Mains", pid + ".lean")) else "oracle"
+
+
+def oracle_path():
+    return os.path.join(LEAN, ".lake/build/bin", ORACLE)
+
+
 def goenv():
     e = dict(os.environ)
     e.update(GOFLAGS="-mod=mod", GOPROXY="off", GOSUMDB="off", GOTOOLCHAIN="local",
@@ -120,7 +134,9 @@ def regenerate():
         return False, "extractor build failed:\n" + out, time.time() - t0
     rc, out = run([ex, REPO, os.path.join(LEAN, "Gv/Gen")])
     if rc != 0:
-        return False, "extractor failed on the working tree (source shape no longer understood):\n" + out, time.time() - t0
+        return False, "extractor crashed on the working tree:\n" + out, time.time() - t0
+    # a stage that no longer understands the source prints EXTRACT-FAIL and leaves a stub that does not compile in place
+    # of its tables: the Lean modules (and property checks) that need them break, the others keep running
     # type-checked determinism facts (tools/detscan, go/packages): ~10 s, so re-run only when the Go sources changed
     h = hashlib.sha1()
     for root, dirs, fs in os.walk(REPO):
@@ -141,11 +157,17 @@ def regenerate():
             return False, "detscan build failed:\n" + out2, time.time() - t0
         rc, out2 = run([ds, REPO, os.path.join(LEAN, "Gv/Gen")], env=goenv())
         if rc != 0:
+            # only the modules that need the determinism facts (C11) break
             if os.path.exists(stamp):
                 os.remove(stamp)
-            return False, "detscan failed on the working tree (it no longer type-checks?):\n" + out2, time.time() - t0
-        with open(stamp, "w") as fh:
-            fh.write(h.hexdigest())
+            msg = out2[-400:].replace('"', "'").replace("\n", " ")
+            with open(target, "w") as fh:
+                fh.write("-- GENERATED by tools/detscan: SCAN FAILED on the repository working tree.\n"
+                         "example : \"tools/detscan failed: %s\" = \"\" := by decide\n" % msg)
+            out += "\nEXTRACT-FAIL stage=detscan files=DetFacts.lean reason=" + msg
+        else:
+            with open(stamp, "w") as fh:
+                fh.write(h.hexdigest())
     return True, out, time.time() - t0
 
 
@@ -157,6 +179,16 @@ def lake_build(targets):
         for m in re.finditer(r"error: (\S+\.lean):(\d+):(\d+): (.*)", out):
             f, ln, _, msg = m.group(1), int(m.group(2)), m.group(3), m.group(4)
             th = theorem_at(os.path.join(LEAN, f), ln)
+            if f.startswith("Gv/Gen/"):
+                try:
+                    with open(os.path.join(LEAN, f)) as fh:
+                        src = fh.read()
+                    if "FAILED" in src[:200]:
+                        th = "T1/T2/T3 regeneration of " + f
+                        m2 = re.search(r'example : "([^"]*)"', src)
+                        msg = m2.group(1) if m2 else msg
+                except OSError:
+                    pass
             broken.append({"file": f, "line": ln, "theorem": th, "msg": msg[:300]})
         if not broken:
             broken.append({"file": "?", "line": 0, "theorem": None, "msg": out[-2000:]})
@@ -415,7 +447,7 @@ def run_det_case(c, timeout_s=120.0):
                 cur = r[1]
             c.impl = ("same rc=0 out=%d files=0" % len(cur)) if cur == r0[1] else "differ stdout after %s" % ">".join(chain + [chain[0]])
         elif c.op == "detboot":
-            model, n, frac, seed, t = c.args[1], int(c.args[2]), c.args[3], str(c.args[4]), str(c.args[5])
+            model, n, frac, seed, t = c.args[1].split(" "), int(c.args[2]), c.args[3], str(c.args[4]), str(c.args[5])
             num, den = frac.split("/")
             f = repr(float(num) / float(den))
             a = exec_goalign(["build", "seqboot", "-n", str(n), "-f", f, "--seed", seed, "-o", "boot", "-t", t], stdin, {}, timeout_s)
@@ -424,12 +456,12 @@ def run_det_case(c, timeout_s=120.0):
                 return
             mats = b""
             for i in range(n):
-                d = exec_goalign(["compute", "distance", "-m", model, "-t", t], a[3].get("boot%d.fa" % i, b""), {}, timeout_s)
+                d = exec_goalign(["compute", "distance", "-m"] + model + ["-t", t], a[3].get("boot%d.fa" % i, b""), {}, timeout_s)
                 if d[0] != 0:
                     c.impl = "differ exit-status:%s in compute distance on replicate %d" % (d[0], i)
                     return
                 mats += d[1]
-            b = exec_goalign(["build", "distboot", "-n", str(n), "-f", f, "--seed", seed, "-m", model, "-t", t], stdin, {}, timeout_s)
+            b = exec_goalign(["build", "distboot", "-n", str(n), "-f", f, "--seed", seed, "-m"] + model + ["-t", t], stdin, {}, timeout_s)
             c.impl = ("same rc=0 out=%d files=%d" % (len(mats), n)) if (b[0] == 0 and b[1] == mats) else \
                 "differ stdout seqboot+distance=%s distboot=%s(rc=%s)" % (hashlib.sha1(mats).hexdigest()[:12], hashlib.sha1(b[1]).hexdigest()[:12], b[0])
         else:
@@ -465,7 +497,7 @@ def run_impl(binpath, cases, timeout_s=5.0, nproc=None, env=None):
 
 
 def run_oracle(cases, nproc=None):
-    orc = os.path.join(LEAN, ".lake/build/bin/oracle")
+    orc = oracle_path()
     nproc = nproc or min(NCPU, max(1, len(cases) // 200))
     chunks = [[] for _ in range(nproc)]
     for i, c in enumerate(cases):
@@ -655,13 +687,13 @@ def generic_check(mod, tier, seed):
         ok, out, _ = regenerate()
         res.add_obligation("T1:regenerate-from-source", ok, "tie", "" if ok else out[-500:])
         gen_ok = ok
-        bok, broken, bout, bt = lake_build(mod.LEAN_MODULES + ["oracle"])
-        oracle_ok = os.path.exists(os.path.join(LEAN, ".lake/build/bin/oracle")) and not any(
-            b["file"].startswith(("Gv/Model", "Gv/Oracle", "Gv/Gen", "Gv/Basic", "Gv/Spec", "Main")) for b in broken)
-        if not bok and oracle_ok:
-            # make sure the oracle itself is current even though a Props module failed
-            ook, obroken, _, _ = lake_build(["oracle"])
-            oracle_ok = ook
+        set_oracle(mod.ID)
+        bok, broken, bout, bt = lake_build(mod.LEAN_MODULES + [ORACLE])
+        oracle_ok = bok
+        if not bok:
+            # is the oracle itself current even though a Props module failed?
+            ook, obroken, _, _ = lake_build([ORACLE])
+            oracle_ok = ook and os.path.exists(oracle_path())
         ths = []
         audit_fail = None
         if bok:
@@ -860,7 +892,8 @@ def replay(mod, path):
         return 0
     with Lock():
         regenerate()
-        lake_build(["oracle"])
+        set_oracle(mod.ID)
+        lake_build([ORACLE])
         ok, out, _, binpath = build_harness()
     c = Case(d["case"]["op"], d["case"]["args"])
     evaluate(binpath, [c], timeout_s=getattr(mod, "TIMEOUT", 5.0))
